@@ -6,7 +6,7 @@
 From stdpp Require Import gmap.
 From Coq Require Import ZArith.
 From V Require Import Base.Codec Base.Res Base.ResCodec Sched.LedgerModel Sched.LedgerCodec Sched.LedgerInv
-                      C08.Model C08.Laws.
+                      C08.Model C08.Laws C08.Prio.
 Open Scope Z_scope.
 
 (* ---------- encoders ---------- *)
@@ -75,14 +75,19 @@ Definition dNodeObj : dec nodever :=
   let* _ := dZ in let* _ := dZ in let* _ := dZ in
   ret (mkNodeVer i (mk_alloc c m p g) ((fun x => x * grid) <$> oc) ((fun x => x * grid) <$> om) on off z).
 
-Definition dPG : dec pgobj :=
+Definition dPG : dec (pgobj * Z) :=
   let* i := dPos in let* u := dZ in let* q := dZ in let* m := dZ in
   (* number of status conditions already on the object, annotations present: delivered to the
      real cache, no effect on the view *)
   let* _ := dZ in let* _ := dZ in
-  if q <? 0 then fail else ret (mkPG i u q m).
+  (* spec.priorityClassName (0 = none) *)
+  let* cls := dZ in
+  if (q <? 0) || (cls <? 0) then fail else ret (mkPG i u q m, cls).
 
-Inductive op := OEv (e : event) | OSnap.
+Definition dPC : dec pcobj :=
+  let* i := dPos in let* v := dZ in let* g := dBool in ret (mkPC i v g).
+
+Inductive op := OEv (e : event) | OSnap | OPG (g : pgobj) (cls : Z) | OPrio (pc : pcobj) | OPrioDel (id : positive).
 
 (* outcome of the API side of a bind: 1 = bound; 0 = Binder.Bind fails; 2 = a pre-binder
    fails and the pod status update succeeds; 3 = a pre-binder fails and the status update fails *)
@@ -96,7 +101,9 @@ Definition dOp : dec op :=
   | 2 => let* i := dPos in ret (OEv (EPodDel i))
   | 3 => let* o := dNodeObj in ret (OEv (ENode o))
   | 4 => let* i := dPos in ret (OEv (ENodeDel i))
-  | 5 => let* g := dPG in ret (OEv (EPG g))
+  | 5 => let* gc := dPG in ret (OPG (fst gc) (snd gc))
+  | 15 => let* pc := dPC in ret (OPrio pc)
+  | 16 => let* i := dPos in ret (OPrioDel i)
   | 6 => let* i := dPos in ret (OEv (EPGDel i))
   | 7 => let* q := dPos in ret (OEv (EQueue q))
   | 8 => let* q := dPos in ret (OEv (EQueueDel q))
@@ -187,16 +194,49 @@ Definition step_code (eps : Z) (c : cache) (e : event) : Z :=
   | _ => 0
   end.
 
-Fixpoint run_dump (eps : Z) (c : cache) (ops : list op) : list Z :=
-  match ops with
-  | [] => []
-  | OEv e :: r => let c' := handle eps c e in [-101; step_code eps c e] ++ eCache c' ++ run_dump eps c' r
-  | OSnap :: r => [-104] ++ eCache c ++ [-102] ++ eSnap eps c (take_snapshot eps c) ++
-                  [-103] ++ eCache c ++ [-105; 1] ++ run_dump eps c r
+(* the priority Snapshot() gives every job it contains *)
+Definition ePrios (c : cache) (s : pstate) : list Z :=
+  [-115] ++ eList (fun kv : positive * cjob => [Zpos (fst kv); job_priority s (fst kv)])
+                  (sort_kv (map_to_list (filter (fun kv => in_snapshot c (snd kv) = true) (c_jobs c)))).
+Definition eCacheP (c : cache) (s : pstate) : list Z := eCache c ++ ePrios c s.
+
+Definition dCacheP : dec (cache * list (positive * Z)) :=
+  let* c := dCache in let* _ := tag (-115) in let* ps := dList (dPair dPos dZ) in ret (c, ps).
+
+Definition event_of (o : op) : option event :=
+  match o with OEv e => Some e | OPG g _ => Some (EPG g) | _ => None end.
+Definition pevents_of (o : op) : list pevent :=
+  match o with
+  | OPG g cls => [PPodGroup (g_id g) cls]
+  | OEv (EPGDel i) => [PPodGroupDel i]
+  | OPrio pc => [PClass pc]
+  | OPrioDel i => [PClassDel i]
+  | _ => []
   end.
 
-Definition events_of (ops : list op) : list event :=
-  flat_map (fun o => match o with OEv e => [e] | OSnap => [] end) ops.
+Fixpoint run_dump (eps : Z) (c : cache) (s : pstate) (ops : list op) : list Z :=
+  match ops with
+  | [] => []
+  | OSnap :: r => [-104] ++ eCacheP c s ++ [-102] ++ eSnap eps c (take_snapshot eps c) ++
+                  [-103] ++ eCacheP c s ++ [-105; 1] ++ run_dump eps c s r
+  | o :: r =>
+    let s' := fold_left phandle (pevents_of o) s in
+    match event_of o with
+    | Some e => let c' := handle eps c e in
+                [-101; step_code eps c e] ++ eCacheP c' s' ++ run_dump eps c' s' r
+    | None => [-101; 0] ++ eCacheP c s' ++ run_dump eps c s' r
+    end
+  end.
+
+Definition events_of (ops : list op) : list event := omap event_of ops.
+Definition all_pevents (ops : list op) : list pevent := flat_map pevents_of ops.
+
+(* the PriorityClass part of the cache built from the final objects alone *)
+Definition build_ps (ops : list op) : pstate :=
+  let pe := all_pevents ops in
+  prun empty_ps
+    (map (fun kv : positive * pcobj => PClass (snd kv)) (sort_kv (map_to_list (fold_left papply pe ∅))) ++
+     map (fun kv : positive * Z => PPodGroup (fst kv) (snd kv)) (sort_kv (map_to_list (fold_left papply_pg pe ∅)))).
 
 (* the snapshot's nodes with the hazard nodes put back from the cache side *)
 Definition law_snapshot_hz (c : cache) (s : snapshot) (hz : gset positive) : bool :=
@@ -205,34 +245,35 @@ Definition law_snapshot_hz (c : cache) (s : snapshot) (hz : gset positive) : boo
 Definition entry (sel : Z) (toks : list Z) : list Z :=
   match sel with
   | 1 => match run_dec dCase toks with
-         | Some (e, ops) => [-100] ++ run_dump e empty_cache ops
+         | Some (e, ops) => [-100] ++ run_dump e empty_cache empty_ps ops
          | None => bad_input end
   | 2 => match run_dec dCase toks with
-         | Some (e, ops) => [-100] ++ eCache (build e (final_objects (events_of ops)))
+         | Some (e, ops) => [-100] ++ eCacheP (build e (final_objects (events_of ops))) (build_ps ops)
          | None => bad_input end
-  | 101 => match run_dec dCache toks with
-           | Some c => eBool (law_inv c)
+  | 101 => match run_dec dCacheP toks with
+           | Some (c, _) => eBool (law_inv c)
            | None => bad_input end
-  | 102 => match run_dec (dPair dCache dCache) toks with
-           | Some (a, b) => eBool (law_converge a b)
+  | 102 => match run_dec (dPair dCacheP dCacheP) toks with
+           | Some ((a, pa), (b, pb)) => eBool (law_converge a b && bool_decide (pa = pb))
            | None => bad_input end
-  | 103 => match run_dec (let* a := dCache in let* b := dCache in let* same := dZ in ret (a, b, same)) toks with
-           | Some (a, b, same) => eBool (law_untouched a b && (same =? 1))
+  | 103 => match run_dec (let* a := dCacheP in let* b := dCacheP in let* same := dZ in ret (a, b, same)) toks with
+           | Some ((a, pa), (b, pb), same) => eBool (law_untouched a b && bool_decide (pa = pb) && (same =? 1))
            | None => bad_input end
-  | 104 => match run_dec (dPair dCache dSnap) toks with
-           | Some (c, (s, hz)) => eBool (law_snapshot_hz c s hz)
+  | 104 => match run_dec (dPair dCacheP dSnap) toks with
+           | Some ((c, _), (s, hz)) => eBool (law_snapshot_hz c s hz)
            | None => bad_input end
   (* diagnostics: the conjuncts of the invariant / of the view comparison *)
-  | 201 => match run_dec dCache toks with
-           | Some c => eBool (ledger_okb (c_heap c) (cj_job <$> c_jobs c) (c_nodes c)) ++
+  | 201 => match run_dec dCacheP toks with
+           | Some (c, _) => eBool (ledger_okb (c_heap c) (cj_job <$> c_jobs c) (c_nodes c)) ++
                        eBool (paired_jn c) ++ eBool (paired_nj c) ++ eBool (nodelist_okb c) ++
                        flat_map (fun kv => Zpos (fst kv) :: eBool (job_okb (c_heap c) (cj_job (snd kv))))
                                 (map_to_list (c_jobs c)) ++ [-1] ++
                        flat_map (fun kv => Zpos (fst kv) :: eBool (node_okb (c_heap c) (snd kv)))
                                 (map_to_list (c_nodes c))
            | None => bad_input end
-  | 202 => match run_dec (dPair dCache dCache) toks with
-           | Some (a, b) =>
+  | 202 => match run_dec (dPair dCacheP dCacheP) toks with
+           | Some ((a, pa), (b, pb)) =>
+             eBool (bool_decide (pa = pb)) ++
              eBool (map_sameb task_view_sameb (job_tasks a) (job_tasks b)) ++
              eBool (map_sameb cjob_view_sameb (filter (fun kv => job_visible (snd kv) = true) (c_jobs a))
                                               (filter (fun kv => job_visible (snd kv) = true) (c_jobs b))) ++
